@@ -159,6 +159,44 @@ func init() {
 		c18ClosureAssigns(s, e, auth, "WithUnauthorizedCallback", "authWithCallbackAssigns")
 		c18ClosureAssigns(s, e, srv, "WithUnsignedCallback", "withUnsignedCallbackCalls")
 
+		c18Effects(s, e, c18EffSpec{rel: cry, fn: "cryptionResponseWriter.flush", lean: "flushEffects", depth: 0,
+			params: "(empty encryptErr writeErr shortWrite : Bool)",
+			conds: map[string]string{"w.buf.Len() == 0": "empty", "err != nil": "encryptErr",
+				"io.WriteString: err != nil": "writeErr", "io.WriteString: n < len(body)": "shortWrite"},
+			effects: map[string]string{"codec.EcbEncrypt": "", "w.WriteHeader": "", "io.WriteString": "", "base64.StdEncoding.EncodeToString": ""},
+			skip:    map[string]bool{"logc.Errorf": true}})
+
+		// the accesses of incrementCount to the shared history, in order (the steps of the interleaving model Conc)
+		c18Effects(s, e, c18EffSpec{rel: tokp, fn: "TokenParser.incrementCount", lean: "incrementCountEffects", depth: 0,
+			params:  "(expired present : Bool)",
+			conds:   map[string]string{"tp.resetTime+tp.resetDuration < now": "expired", "ok": "present"},
+			effects: map[string]string{"timex.Now": "", "tp.history.Range": "clear", "tp.history.Load": "", "atomic.AddUint64": "", "tp.history.Store": ""},
+			skip:    map[string]bool{"var count uint64 = 1": true}})
+		c18Effects(s, e, c18EffSpec{rel: tokp, fn: "TokenParser.loadCount", lean: "loadCountEffects", depth: 0,
+			params:  "(present : Bool)",
+			conds:   map[string]string{"ok": "present"},
+			effects: map[string]string{"tp.history.Load": ""},
+			skip:    map[string]bool{}, retVals: true})
+
+		c18Effects(s, e, c18EffSpec{rel: sec, fn: "ParseContentSecurity", lean: "parseContentSecurityEffects", depth: 0,
+			params: "(emptyField noKey decryptErr keyErr typeErr : Bool)",
+			conds: map[string]string{"len(fingerprint) == 0 || len(secret) == 0 || len(signature) == 0": "emptyField", "!ok": "noKey",
+				"decrypter.DecryptBase64: err != nil": "decryptErr", "base64.StdEncoding.DecodeString: err != nil": "keyErr",
+				"strconv.Atoi: err != nil": "typeErr"},
+			effects: map[string]string{"r.Header.Get": "", "httpx.ParseHeader": "", "decrypter.DecryptBase64": "",
+				"base64.StdEncoding.DecodeString": "", "strconv.Atoi": ""},
+			skip: map[string]bool{}, retVals: true, plainAssigns: true})
+		c18Effects(s, e, c18EffSpec{rel: sec, fn: "VerifySignature", lean: "verifySignatureEffects", depth: 0,
+			params: "(badTimestamp outside sigEqual : Bool)",
+			conds: map[string]string{"strconv.ParseInt: err != nil": "badTimestamp",
+				"seconds+toleranceSeconds < now || now+toleranceSeconds < seconds": "outside",
+				"securityHeader.Signature == actualSignature": "sigEqual"},
+			effects: map[string]string{"strconv.ParseInt": "", "getPathQuery": "", "codec.HmacBase64": ""},
+			skip:    map[string]bool{"time.Now().Unix": true, "int64": true, "strings.Join": true, "logc.Infof": true}, retVals: true})
+
+		// ---- round 5c: ParseToken's retry structure as a TYPED call list (symbolic execution: which secret each call gets)
+		c18ParseTokenCalls(s, e, tokp, "TokenParser.ParseToken", "parseTokenCalls")
+
 		// ---- round 5: whole bodies as DECISION functions: which effects run, in order, for every outcome of the conditions
 		c18Effects(s, e, c18EffSpec{rel: auth, fn: "Authorize", lean: "authorizeEffects", depth: 2,
 			params: "(parseErr tokValid claimsOk : Bool)",
@@ -869,6 +907,8 @@ type c18EffSpec struct {
 	depth                 int
 	conds, tags, effects  map[string]string
 	skip                  map[string]bool
+	retVals               bool // returns with values are effects ("return <values>")
+	plainAssigns          bool // `x := m[k]` is plumbing (skipped), `v, ok := m[k]` is an effect
 }
 
 func c18Effects(s *source, e *emitter, sp c18EffSpec) {
@@ -910,7 +950,19 @@ func c18Effects(s *source, e *emitter, sp c18EffSpec) {
 			return "", false, false
 		}
 		name := prefix + s.src(call.Fun)
-		if _, ok := sp.effects[name]; ok {
+		if alias, ok := sp.effects[name]; ok {
+			if alias != "" { // the argument is a function literal: the effect is named by what it does — and that is checked
+				fl, ok := (ast.Expr)(nil), false
+				if len(call.Args) == 1 {
+					fl, ok = call.Args[0], true
+				}
+				lit, isLit := fl.(*ast.FuncLit)
+				if !ok || !isLit || alias != "clear" || len(lit.Body.List) != 2 ||
+					s.src(lit.Body.List[0]) != "tp.history.Delete(key)" || s.src(lit.Body.List[1]) != "return true" {
+					return "", false, false
+				}
+				return name + " [" + alias + "]", true, false
+			}
 			var args []string
 			for _, a := range call.Args {
 				args = append(args, s.src(a))
@@ -922,6 +974,28 @@ func c18Effects(s *source, e *emitter, sp c18EffSpec) {
 		}
 		return "", false, false
 	}
+	qualified := map[*ast.IfStmt]string{}
+	// an `if` right after `x, err := f(…)`: its condition may be named "<f>: <condition>" in the table
+	ast.Inspect(body, func(n ast.Node) bool {
+		blk, ok := n.(*ast.BlockStmt)
+		if !ok {
+			return true
+		}
+		for i := 1; i < len(blk.List); i++ {
+			is, ok := blk.List[i].(*ast.IfStmt)
+			if !ok || is.Init != nil {
+				continue
+			}
+			if as, ok := blk.List[i-1].(*ast.AssignStmt); ok && len(as.Rhs) == 1 {
+				if call, ok := as.Rhs[0].(*ast.CallExpr); ok {
+					if c, ok := sp.conds[s.src(call.Fun)+": "+s.src(is.Cond)]; ok {
+						qualified[is] = c
+					}
+				}
+			}
+		}
+		return true
+	})
 	var trans func(list []ast.Stmt) string
 	one := func(x ast.Expr, st ast.Stmt, prefix string, rest []ast.Stmt) string {
 		txt, isEff, isSkip := callEffect(x, prefix)
@@ -943,6 +1017,23 @@ func c18Effects(s *source, e *emitter, sp c18EffSpec) {
 			if len(x.Results) == 0 {
 				return "[]"
 			}
+			if sp.retVals {
+				var rs []string
+				for _, r := range x.Results {
+					if cl, ok := r.(*ast.UnaryExpr); ok {
+						if lit, ok := cl.X.(*ast.CompositeLit); ok { // &T{F: v, …}: the type and the field assignments on one line
+							var fs []string
+							for _, el := range lit.Elts {
+								fs = append(fs, strings.Join(strings.Fields(s.src(el)), " "))
+							}
+							rs = append(rs, "&"+s.src(lit.Type)+"{"+strings.Join(fs, ", ")+"}")
+							continue
+						}
+					}
+					rs = append(rs, s.src(r))
+				}
+				return "[" + leanString("return "+strings.Join(rs, ", ")) + "]"
+			}
 			return fail(st, "return with a value")
 		case *ast.ExprStmt:
 			return one(x.X, st, "", rest)
@@ -952,17 +1043,48 @@ func c18Effects(s *source, e *emitter, sp c18EffSpec) {
 			if len(x.Rhs) != 1 {
 				return fail(st, "assignment")
 			}
+			if ix, ok := x.Rhs[0].(*ast.IndexExpr); ok && sp.plainAssigns {
+				if len(x.Lhs) == 2 { // v, ok := m[k]: the lookup decides, it is an effect
+					return "(" + leanString("lookup "+s.src(ix)) + " :: " + trans(rest) + ")"
+				}
+				return trans(rest)
+			}
 			return one(x.Rhs[0], st, "", rest)
+		case *ast.DeclStmt:
+			if sp.skip[s.src(st)] {
+				return trans(rest)
+			}
+			return fail(st, "declaration")
 		case *ast.BlockStmt:
 			return trans(append(append([]ast.Stmt{}, x.List...), rest...))
 		case *ast.IfStmt:
 			if x.Init != nil {
-				// the init statement runs first, then the condition is consulted
+				// the init statement runs first, then the condition is consulted; a condition about the init's own call may
+				// be named "<callee>: <condition>" in the table (several `err != nil` in one function)
 				cp := *x
 				cp.Init = nil
+				if as, ok := x.Init.(*ast.AssignStmt); ok && len(as.Rhs) == 1 {
+					if call, ok := as.Rhs[0].(*ast.CallExpr); ok {
+						if c, ok := sp.conds[s.src(call.Fun)+": "+s.src(x.Cond)]; ok {
+							qualified[&cp] = c
+						}
+					}
+				}
+				if el, ok := x.Else.(*ast.IfStmt); ok && el.Init == nil {
+					if as, ok := x.Init.(*ast.AssignStmt); ok && len(as.Rhs) == 1 {
+						if call, ok := as.Rhs[0].(*ast.CallExpr); ok {
+							if c, ok := sp.conds[s.src(call.Fun)+": "+s.src(el.Cond)]; ok {
+								qualified[el] = c
+							}
+						}
+					}
+				}
 				return trans(append([]ast.Stmt{x.Init, &cp}, rest...))
 			}
-			c, ok := sp.conds[s.src(x.Cond)]
+			c, ok := qualified[x]
+			if !ok {
+				c, ok = sp.conds[s.src(x.Cond)]
+			}
 			if !ok {
 				return fail(st, "condition not in the table")
 			}
@@ -1024,4 +1146,135 @@ func c18Effects(s *source, e *emitter, sp c18EffSpec) {
 		return
 	}
 	e.printf("/-- the effects of `%s` (%s), in order, for every outcome of its conditions -/\ndef %s %s : List String :=\n  %s\n\n", sp.fn, sp.rel, sp.lean, sp.params, expr)
+}
+
+// ---- round 5c ----
+
+// c18ParseTokenCalls executes TokenParser.ParseToken symbolically: the locals first / second / count / prevCount are tracked
+// through the assignments, every call of tp.loadCount / tp.doParseToken / tp.incrementCount is emitted as (kind, the
+// secret it is given), every `err != nil` is the error of the doParseToken call that assigned err last (`err <its secret>`),
+// the returns are ("return-err", "") / ("return-token", ""). Anything else is an extraction error.
+func c18ParseTokenCalls(s *source, e *emitter, rel, fn, lean string) {
+	fd := s.findFunc(rel, fn)
+	if fd == nil {
+		c18Fail(e, lean, "function "+fn+" not found in "+rel)
+		return
+	}
+	bad := ""
+	fail := func(n ast.Node, why string) string {
+		if bad == "" {
+			bad = why + ": " + strings.SplitN(s.src(n), "\n", 2)[0]
+		}
+		return "[]"
+	}
+	type env struct {
+		vars    map[string]string // local -> Lean term of the secret it holds ("secret" | "prev") or "count:<term>"
+		lastErr string            // the secret of the doParseToken call err came from
+	}
+	clone := func(v env) env {
+		m := map[string]string{}
+		for k, x := range v.vars {
+			m[k] = x
+		}
+		return env{m, v.lastErr}
+	}
+	val := func(v env, x ast.Expr) string {
+		src := s.src(x)
+		if t, ok := v.vars[src]; ok && !strings.HasPrefix(t, "count:") {
+			return t
+		}
+		return ""
+	}
+	var exec func(list []ast.Stmt, v env) string
+	exec = func(list []ast.Stmt, v env) string {
+		if len(list) == 0 {
+			return "[]"
+		}
+		st, rest := list[0], list[1:]
+		emit := func(kind, arg string) string {
+			return "((" + leanString(kind) + ", " + arg + ") :: " + exec(rest, v) + ")"
+		}
+		switch x := st.(type) {
+		case *ast.DeclStmt:
+			return exec(rest, v)
+		case *ast.ReturnStmt:
+			if len(x.Results) == 2 {
+				a, b := s.src(x.Results[0]), s.src(x.Results[1])
+				if a == "nil" && b == "err" {
+					return "[(\"return-err\", \"\")]"
+				}
+				if a == "token" && b == "nil" {
+					return "[(\"return-token\", \"\")]"
+				}
+			}
+			return fail(st, "return")
+		case *ast.ExprStmt:
+			call, ok := x.X.(*ast.CallExpr)
+			if ok && s.src(call.Fun) == "tp.incrementCount" && len(call.Args) == 1 && val(v, call.Args[0]) != "" {
+				return emit("incr", val(v, call.Args[0]))
+			}
+			return fail(st, "call")
+		case *ast.AssignStmt:
+			if len(x.Rhs) != 1 {
+				return fail(st, "assignment")
+			}
+			if call, ok := x.Rhs[0].(*ast.CallExpr); ok {
+				switch s.src(call.Fun) {
+				case "tp.loadCount":
+					if len(x.Lhs) == 1 && len(call.Args) == 1 && val(v, call.Args[0]) != "" {
+						v.vars[s.src(x.Lhs[0])] = "count:" + val(v, call.Args[0])
+						return emit("load", val(v, call.Args[0]))
+					}
+				case "tp.doParseToken":
+					if len(x.Lhs) == 2 && s.src(x.Lhs[0]) == "token" && s.src(x.Lhs[1]) == "err" && len(call.Args) == 2 &&
+						s.src(call.Args[0]) == "r" && val(v, call.Args[1]) != "" {
+						v.lastErr = val(v, call.Args[1])
+						return emit("parse", val(v, call.Args[1]))
+					}
+				}
+				return fail(st, "call")
+			}
+			if len(x.Lhs) == 1 && x.Tok == token.ASSIGN && val(v, x.Rhs[0]) != "" {
+				if name := s.src(x.Lhs[0]); name == "first" || name == "second" {
+					v.vars[name] = val(v, x.Rhs[0])
+					return exec(rest, v)
+				}
+			}
+			return fail(st, "assignment")
+		case *ast.IfStmt:
+			if x.Init != nil {
+				return fail(st, "if with an init statement")
+			}
+			cond := ""
+			switch c := s.src(x.Cond); {
+			case c == "len(prevSecret) > 0":
+				cond = "hasPrev"
+			case c == "err != nil" && v.lastErr != "":
+				cond = "err " + v.lastErr
+			case c == "count > prevCount" && v.vars["count"] == "count:secret" && v.vars["prevCount"] == "count:prev":
+				cond = "currentLeads"
+			default:
+				return fail(st, "condition outside the translated subset")
+			}
+			a := exec(append(append([]ast.Stmt{}, x.Body.List...), rest...), clone(v))
+			b := ""
+			switch el := x.Else.(type) {
+			case nil:
+				b = exec(rest, clone(v))
+			case *ast.BlockStmt:
+				b = exec(append(append([]ast.Stmt{}, el.List...), rest...), clone(v))
+			default:
+				return fail(st, "else")
+			}
+			return "(if " + cond + " then " + a + " else " + b + ")"
+		}
+		return fail(st, "statement outside the translated subset")
+	}
+	expr := exec(fd.Body.List, env{map[string]string{"secret": "secret", "prevSecret": "prev"}, ""})
+	if bad != "" {
+		c18Fail(e, lean, fn+": "+bad)
+		return
+	}
+	e.printf("/-- `%s` (%s) as a typed call list: (kind, the secret the call is given), for every outcome of the conditions; `err s` = doParseToken with secret `s` returned an error -/\n", fn, rel)
+	e.printf("def %s (secret prev : String) (hasPrev currentLeads : Bool) (err : String → Bool) : List (String × String) :=\n  %s\n\n", lean, expr)
 }
